@@ -787,7 +787,52 @@ func ruleSextet(c *Ctx) *RuleResult {
 	kFormula("graph.Sparse6Decode")
 	kFormula("graph.Sparse6Encode")
 	padRule(c, r, "graph.Sparse6Encode")
+	trimRule(c, r, "graph.Graph6Decode", 63, 126)
+	trimRule(c, r, "graph.Sparse6Decode", 58, 58)
 	return r
+}
+
+// trimRule: the optional header is a fixed prefix. Removing it with strings.Trim/TrimLeft treats
+// the header text as a *set* of characters and goes on eating the data: any leading data byte that
+// happens to be in the set disappears (for graph6 the first data byte is the size, any of 63..126).
+func trimRule(c *Ctx, r *RuleResult, fnName string, lo, hi int64) {
+	fn := c.Fn(fnName)
+	n := 0
+	for _, f := range codecScope(fn) {
+		for _, b := range f.Blocks {
+			for _, in := range b.Instrs {
+				call, ok := in.(*ssa.Call)
+				if !ok {
+					continue
+				}
+				cal := call.Call.StaticCallee()
+				if cal == nil || cal.Pkg == nil || (cal.Pkg.Pkg.Path() != "strings" && cal.Pkg.Pkg.Path() != "bytes") {
+					continue
+				}
+				n++
+				if cal.Name() != "Trim" && cal.Name() != "TrimLeft" {
+					continue
+				}
+				k, isK := call.Call.Args[1].(*ssa.Const)
+				if !isK || k.Value == nil {
+					r.undecided("%s: %s.%s with a cutset that is not a constant", fnName, cal.Pkg.Pkg.Name(), cal.Name())
+					continue
+				}
+				set := constant.StringVal(k.Value)
+				eats := ""
+				for i := 0; i < len(set); i++ {
+					if int64(set[i]) >= lo && int64(set[i]) <= hi {
+						eats += string(set[i])
+					}
+				}
+				if eats != "" {
+					r.find(fnName+":header stripped as a character set", c.instrPos(in), "%s removes the optional header with %s.%s(s, %q): every leading byte in that set is removed, including data bytes (%q can each be the first data byte)", fnName, cal.Pkg.Pkg.Name(), cal.Name(), set, eats)
+				}
+			}
+		}
+	}
+	r.inst("%s: %d calls into strings/bytes examined for set-wise header stripping", fnName, n)
+	r.oblig(true)
 }
 
 // padRule: the format pads the last byte with 1-bits, except that for n = 2^k (k < 6) a run of
